@@ -1,5 +1,6 @@
 import BearVerif.Lemmas.BearCompile3
 import BearVerif.Lemmas.BearTable
+import BearVerif.Lemmas.BearAlias
 /-!
   C01 — no false alarms. Statements only use definitions of `Core/Bear.lean` and
   `Core/BearExpr.lean`: `sat` is the published meaning at full depth, `chk` the sampled
@@ -75,5 +76,30 @@ private def x0 : Obj := list_ [int_ 1, list_ [str_ "a", str_ "b"], int_ 2]
 
 example : sat W0 h0 x0 = true ∧ x0.wf W0 = true ∧ h0.ignorable = false := by decide +kernel
 example : chk W0 {} 1 h0 x0 = true ∧ chk W0 {} 1 h0 (list_ [int_ 1, list_ [int_ 3], int_ 2]) = false := by decide +kernel
+
+/-- **Recursive aliases (PEP 695).** The meaning of `type A = body[A]` is the union of its finite approximations
+    `unroll a body ⊥ n` (the occurrence of `A` inside `body` is the leaf `.cls a`). beartype checks the `k`-fold
+    unrolling whose innermost occurrence is ignorable. Whatever conforms to the alias — at ANY approximation depth
+    `n`, smaller or larger than `k` — conforms to the hint that is actually checked: bounding the unrolling never
+    produces a false alarm. -/
+theorem C01_alias_unroll_sound (W : World) (a : Nat) (body : Hint) (k : Nat) (x : Obj)
+    (hx : ∃ n, sat W (unroll a body Hint.bot n) x = true) : sat W (unroll a body .any k) x = true := by
+  obtain ⟨n, hn⟩ := hx
+  rcases Nat.le_total k n with hkn | hnk
+  · obtain ⟨j, rfl⟩ := Nat.exists_eq_add_of_le hkn
+    rw [unroll_add] at hn
+    exact unroll_mono W a body _ _ (fun _ _ => by simp [sat]) k x hn
+  · obtain ⟨j, rfl⟩ := Nat.exists_eq_add_of_le hnk
+    rw [unroll_add]
+    exact unroll_mono W a body _ _ (fun y hy => by simp [sat_bot] at hy) n x hn
+
+/-- … hence the sampled check of the bounded unrolling accepts it, whichever items are drawn -/
+theorem C01_alias_no_false_alarm (W : World) (hW : W.Wf) (conf : Conf) (r : Nat) (a : Nat) (body : Hint) (k : Nat) (x : Obj)
+    (hx : ∃ n, sat W (unroll a body Hint.bot n) x = true) : chk W conf r (unroll a body .any k) x = true :=
+  C01_sat_imp_chk W hW conf r _ x (C01_alias_unroll_sound W a body k x hx)
+
+-- non-vacuity: `type R = int | list[R]` (a := 99): [[1]] conforms at approximation depth 3, and to the 2-unrolling
+example : sat W0 (unroll 99 (.union [.cls 4, .seq 6 (.cls 99)]) Hint.bot 3) (list_ [list_ [int_ 1]]) = true ∧
+    sat W0 (unroll 99 (.union [.cls 4, .seq 6 (.cls 99)]) .any 2) (list_ [list_ [int_ 1]]) = true := by decide +kernel
 
 end BearVerif.Bear
